@@ -46,7 +46,9 @@ func VerifComponentRecv(c *Component) { c.recv() }
 func VerifSetComponentTransport(c *Component, t Transport) { c.transport = t }
 
 // VerifKeepalive runs the keepalive loop in the calling goroutine.
-func VerifKeepalive(t Transport, interval time.Duration, quit <-chan struct{}) { keepalive(t, interval, quit) }
+func VerifKeepalive(t Transport, interval time.Duration, quit <-chan struct{}) {
+	keepalive(t, interval, quit)
+}
 
 // VerifNewSession runs the session negotiation on the client's current transport.
 func VerifNewSession(c *Client, state SMState) (*Session, error) { return NewSession(c, state) }
